@@ -181,6 +181,7 @@ func init() {
 	props["C09"].Harnesses = append(props["C09"].Harnesses, HarnessSpec{Name: "VH_C09_bare_config", Replay: "native", Unwind: 400, Panics: true},
 		HarnessSpec{Name: "VH_C03_validate", Replay: "native", Panics: true},
 		HarnessSpec{Name: "VH_C05_conditions", Replay: "native", Panics: true},
+		HarnessSpec{Name: "VH_C06_conditions", Replay: "native", Panics: true},
 		HarnessSpec{Name: "VH_C10_logout_request", Replay: "native", Panics: true},
 		HarnessSpec{Name: "VH_C10_logout_response", Replay: "native", Panics: true})
 	props["C18"].Harnesses = append(props["C18"].Harnesses,
